@@ -83,7 +83,12 @@ impl OperationControl for Repeat {
     ) -> Box<dyn Iterator<Item = usize> + 'a> {
         let mut iterators: Vec<Box<dyn Iterator<Item = usize>>> = Vec::new();
         let mut positions = Vec::new();
-        let bound = self.max.min(matcher.search.len() - position + 1);
+        // a term that consumes input can iterate at most once per remaining
+        // character, but iterations that match the empty string may still
+        // be needed to reach the minimum
+        let bound = self
+            .max
+            .min((matcher.search.len() - position + 1).max(self.min));
         let mut p = position;
         if self.greedy {
             // Prime the arrays first with iterators up to the maximum length,
